@@ -2,7 +2,7 @@
 
 package state
 
-// VerifC14Step: from ANY valid tracker state, one call of any Tracker method:
+// VerifC14Step: from ANY valid tracker state, one call of any Tracker method (String included):
 // (1) whatever it returns shares no mutable storage with the tracker, so
 // neither side can change the other; (2) lock discipline: the call is exactly
 // one critical section of the tracker's mutex, every map access and every
@@ -13,10 +13,11 @@ func VerifC14Step() {
 	r := vBuild(m)
 	st := r.st
 	a, b := vArgName("argA"), vArgName("argB")
+	vSetOpt("watchReads", 1) // reads of tracker fields that some method writes need the lock too
 	vWatch(st, &st.mu)
 	acq := vLockAcquires(&st.mu)
 	var ret interface{}
-	op := vLen("op", 0, 15)
+	op := vLen("op", 0, 16)
 	vWatchOn(true)
 	switch op {
 	case 0:
@@ -52,6 +53,8 @@ func VerifC14Step() {
 		st.Dissociate(a, b)
 	case 15:
 		st.Wipe()
+	case 16:
+		_ = st.String()
 	}
 	vWatchOn(false)
 	vAssert(vLockAcquires(&st.mu) <= acq+1, "at-most-one-critical-section") // a call that touches no tracker state (NewNick("")) may take no lock at all
